@@ -754,6 +754,14 @@ impl Hist {
         if !self.held.is_empty() {
             self.flags.pending_with_held += 1;
         }
+        if matches!(self.kind, Kind::BufO | Kind::TryBufO) && !self.flags.hol_stall && self.held.len() >= self.cap.max(2) {
+            // head of line unfinished while somebody behind it has finished, at the limit
+            let ks = w.kids.borrow();
+            let head_open = ks[self.held[0] as usize].state != KState::Done;
+            if head_open && self.held.iter().skip(1).any(|i| ks[*i as usize].state == KState::Done) {
+                self.flags.hol_stall = true;
+            }
+        }
         if self.model_empty() && !(self.kind.is_join() && self.join_ready_seen) {
             let (p, rule) = match self.kind {
                 k if k.is_merge() => ("C11", "pending_while_all_sources_ended"),
@@ -1413,8 +1421,11 @@ impl Hist {
                 k.state == KState::Done || k.drops > 0 || (!k.ready && k.self_wake == 0 && k.wake_other.is_none())
             })
         };
+        // (an adapter that holds as many items as its limit allows may not pull: a ready
+        // upstream cannot be the reason for any activity then)
+        let at_limit = self.kind.is_adapter() && self.cap > 0 && self.held.len() >= self.cap;
         let up_passive = match w.up.borrow().as_ref() {
-            Some(up) => up.ended || up.script.get(up.pos) == Some(&UpStep::Gap),
+            Some(up) => at_limit || up.ended || up.script.get(up.pos) == Some(&UpStep::Gap),
             None => true,
         };
         let held = self.running();
